@@ -175,7 +175,7 @@ def compare_objects(ctx, kind, o0, o1, perm, n, cid, case, have_attr,
             if ("eigenvector" in label or "msf_syn" in label) and \
                     not spectral_ok:
                 continue
-            if kind == "Network[directed]" and "newman" in label:
+            if getattr(o0, "directed", False) and "newman" in label:
                 # random-walk betweenness is defined for undirected networks
                 # (the implementation builds an undirected sub-network)
                 continue
@@ -365,13 +365,21 @@ def build_case(ctx, kind, r, small):
     if kind == "RecurrenceNetwork":
         from pyunicorn.timeseries import RecurrenceNetwork
         n = int(r.integers(5, (8 if small else 16)))
-        x = np.round(r.normal(size=(n, 2)) * 8) / 8
-        thr = float(r.choice([0.6, 0.9, 1.3])) + 1 / 64
+        # coarse values: many equal distances, so that rate-based rules
+        # meet ties at their cut-off
+        q = float(r.choice([8, 2, 1]))
+        x = np.round(r.normal(size=(n, 2)) * q) / q
+        rule = [{"threshold": float(r.choice([0.6, 0.9, 1.3])) + 1 / 64},
+                {"recurrence_rate": float(r.choice([0.2, 0.4, 0.6]))},
+                {"local_recurrence_rate": float(r.choice([0.2, 0.4, 0.6]))}][
+                    int(r.integers(0, 3))]
+        metric = str(r.choice(["supremum", "euclidean", "manhattan"]))
 
         def make(p):
-            return RecurrenceNetwork(x[p].copy(), threshold=thr,
-                                     metric="supremum", silence_level=3)
-        return make, n, {"x": x, "thr": thr, "key": x.tobytes().hex()[:40],
+            return RecurrenceNetwork(x[p].copy(), metric=metric,
+                                     silence_level=3, **rule)
+        return make, n, {"x": x, "rule": rule, "metric": metric,
+                         "key": x.tobytes().hex()[:40] + metric + repr(rule),
                          "have_attr": False, "connected": False}
     if kind == "VisibilityGraph":
         from pyunicorn.timeseries import VisibilityGraph
